@@ -217,6 +217,31 @@ struct Runner {
             }
         }
         res.inc(locked ? "probe.locked_samples_checked_as_fir" : "probe.apriori_first_sample_checked", ncheck);
+        // O6 (LMS / NLMS, single-sample unlocked calls): the documented coefficient update
+        //    c' = leak*c + mu*e*conj(u)          (NLMS: divided by sum|u|^2 + eps)
+        // observed through coeffs() before and after the call; u = the last L inputs, newest first.
+        if (!locked && n == 1 && algo <= 1 && conv != 2) {
+            const std::vector<cd> c_after = coeffs_now();
+            const cd e0 = Traits<T>::up(r.e[0]);
+            long double pu = 0;
+            for (int i = 0; i < L; ++i) {
+                pu += std::norm(xat(k0 - i));
+            }
+            const long double norm = (algo == 1) ? (pu + 2.220446049250313e-16L) : 1.0L;
+            long double worst = 0;
+            long double scale = 0;
+            for (int i = 0; i < L; ++i) {
+                const cd want = static_cast<long double>(p2) * c_before[size_t(i)] + static_cast<long double>(p1) * e0 * std::conj(xat(k0 - i)) / norm;
+                worst = std::max(worst, std::abs(c_after[size_t(i)] - want));
+                scale = std::max(scale, std::abs(want));
+            }
+            if (std::isfinite(double(scale)) && worst > 1e-10L * (scale + 1e-30L) + 1e-300L) {
+                res.fail("C12:update-recursion", fmt("%s: single-sample call at k=%lld: coeffs() after the call differ from leak*c + mu*e*conj(u)%s by %.3e (scale %.3e)", cfg().c_str(),
+                                                     static_cast<long long>(k0), algo == 1 ? "/(|u|^2+eps)" : "", double(worst), double(scale)));
+                return false;
+            }
+            res.inc("probe.update_recursion_checked");
+        }
         if (locked) {
             if (!same_bits(flt.coeffs(), lock_snapshot)) {
                 res.fail("C12:lock-changed-coeffs", fmt("%s: coeffs() changed during a call made while locked (k=%lld, frame of %d)", cfg().c_str(), static_cast<long long>(k0), n));
